@@ -684,10 +684,10 @@ class FnRewriter:
         """apply edits to src.text[lo:hi]; return list of (text, origin) pieces"""
         text = self.src.text
         # drop edits fully contained in a deleted range (e.g. casts inside dropped logging)
-        dels = [(s, e) for (s, e, r, tg) in self.edits if r == "" and e > s]
+        dels = [(s, e) for (s, e, r, tg) in self.edits if e > s and (r == "" or tg == "R11")]
         edits = []
         for (s, e, r, tg) in self.edits:
-            inside = any(ds <= s and e <= de and not (s == ds and e == de) for (ds, de) in dels)
+            inside = any(ds <= s and e <= de and not (s == ds and e == de) and not (s == e and (s == ds or s == de)) for (ds, de) in dels)
             if inside:
                 continue
             edits.append((s, e, r, tg))
